@@ -187,7 +187,8 @@ var c03CodeBits = []string{
 }
 
 var c03SubsetCodeBits = []string{"return nil, nil", "if a { b() } else { c() }", "for { break }", "f(func() { g() })", "x := 1", "é := 世", "",
-	"\n\tx := 1\n\treturn x, nil\n", "\r\n\tif a {\r\n\t\tb()\r\n\t}\r\n", "a()\r b()", "\n\n"}
+	"\n\tx := 1\n\treturn x, nil\n", "\r\n\tif a {\r\n\t\tb()\r\n\t}\r\n", "a()\r b()", "\n\n",
+	"p := \"C:\\\\\"", "r := '\\\\'", "s := \"a\\\"b\" + `c\\`", "q := '\\''; t := \"\\\\\\\"\""}
 
 func (g *c03gen) code() string {
 	if g.subset {
